@@ -495,13 +495,52 @@ fn rdp_and_gaps(rng: &mut Rng) {
     emit("curve.fill_gaps", &i, &o, &v);
 }
 
+/// gaps that are long in units of the maximum (a 5 m edge filled to a millimetre): thousands of points
+/// go into one gap; every step must still be at most the maximum
+fn long_gaps(rng: &mut Rng) {
+    let ratio = 10f64.powf(rng.range(1.0, 4.2));
+    let maxd = 10f64.powf(rng.range(-4.0, 0.5));
+    let len = ratio * maxd;
+    let a = rng.range(0.0, 6.283);
+    let mut v = Verdict::new();
+    if rng.chance(0.5) {
+        let p0 = Point2::new(rng.range(-3.0, 3.0), rng.range(-3.0, 3.0));
+        let p1 = Point2::new(p0.x + len * a.cos(), p0.y + len * a.sin());
+        let p2 = Point2::new(p1.x + 0.4 * maxd, p1.y);
+        let pts = vec![p0, p1, p2];
+        match guarded(|| fill_gaps(&pts, maxd)) {
+            Err(e) => v.require(false, "fill_gaps.panics", || e.clone()),
+            Ok(f) => {
+                let worst = f.windows(2).map(|w| (w[1] - w[0]).norm()).fold(0.0, f64::max);
+                v.require(worst <= maxd * (1.0 + 1e-9), "fill_gaps.no_gap_above_maximum_on_long_gaps", || format!("gap {len:e} filled to {maxd:e} (ratio {ratio:.1}): largest step {worst:e}, {} points", f.len()));
+                v.require(is_subsequence(&pts, &f), "fill_gaps.keeps_originals_in_order", || "".into());
+                v.require((f.len() as f64) <= 2.0 * ratio + 8.0, "fill_gaps.no_more_points_than_needed_twice_over", || format!("{} points for ratio {ratio:.1}", f.len()));
+            }
+        }
+    } else {
+        let p0 = Point3::new(rng.range(-3.0, 3.0), rng.range(-3.0, 3.0), rng.range(-3.0, 3.0));
+        let p1 = Point3::new(p0.x + len * a.cos() * 0.8, p0.y + len * a.sin() * 0.8, p0.z + len * 0.6);
+        let pts = vec![p0, p1];
+        match guarded(|| fill_gaps(&pts, maxd)) {
+            Err(e) => v.require(false, "fill_gaps.panics", || e.clone()),
+            Ok(f) => {
+                let worst = f.windows(2).map(|w| (w[1] - w[0]).norm()).fold(0.0, f64::max);
+                v.require(worst <= maxd * (1.0 + 1e-9), "fill_gaps.no_gap_above_maximum_on_long_gaps", || format!("3-D gap {len:e} filled to {maxd:e} (ratio {ratio:.1}): largest step {worst:e}, {} points", f.len()));
+                v.require(f.first() == Some(&p0) && f.last() == Some(&p1), "fill_gaps.keeps_originals_in_order", || "".into());
+            }
+        }
+    }
+    emit_oracle_only("curve.fill_gaps", &Tok::new(), &Tok::new(), &v);
+}
+
 pub fn run(rng: &mut Rng, n: usize) {
     for _ in 0..n {
-        resample2(rng);
-        resample2(rng);
-        resample3(rng);
-        simplify2(rng);
-        simplify3(rng);
-        rdp_and_gaps(rng);
+        case("curve.resample", "c05.library_call_panics", || resample2(rng));
+        case("curve.resample", "c05.library_call_panics", || resample2(rng));
+        case("curve.resample", "c05.library_call_panics", || resample3(rng));
+        case("curve.resample", "c05.library_call_panics", || simplify2(rng));
+        case("curve.resample", "c05.library_call_panics", || simplify3(rng));
+        case("curve.resample", "c05.library_call_panics", || rdp_and_gaps(rng));
+        case("curve.fill_gaps", "c05.library_call_panics", || long_gaps(rng));
     }
 }
